@@ -21,7 +21,7 @@ def obligations(tier):
             obs.append(dict(name=f"chart3[npos={npos},notes2={nk}]", func="chart3", pre=f"npos == {npos} and nk == {nk}", timeout=T,
                             bounds="chart with 2 properties (keys by symbolic index from 10) + note data at a fixed position; values <=2 any Unicode, alias bits, second value may be None"))
     for w in (False, True):
-        obs.append(dict(name=f"chart_multi[{w}]", func="chart_multi", pre=f"which == {w}", timeout=2 * T, bounds="ATTACKS/DISPLAYBPM on simfile and chart level, value <=3 symbolic (split on ':')"))
+        obs.append(dict(name=f"chart_multi[{w}]", func="chart_multi", pre=f"which == {w}", timeout=2 * T, bounds="ATTACKS/DISPLAYBPM on simfile and chart level, value <=3 symbolic (split on ':') or key-only (None) on either level"))
     for r in range(8):
         obs.append(dict(name=f"simfile_props[k0%8=={r}]", func="simfile_props", pre=f"k0 % 8 == {r}", timeout=T, bounds="simfile key by symbolic index over the literal-derived key set, values <=3 (may be None), 0..2 charts"))
     for npos in range(3):
